@@ -1126,7 +1126,7 @@ META = {
              'propagates failures; read groups of every fragment are registered and equal the RG tag written; a worker keeps its BAM iff any task '
              'wrote (accumulated), every worker BAM is merged once. Does NOT decide multiset equality of records at runtime nor what the mate-pairing '
              'library drops.'),
-    'technique': 'static analysis: exactly-once consumption along CFG paths of the job-list loop, comparison-predicate enumeration of guards, constant/guard tracking of option wiring, finalisation-order path check; small-scope abstract execution of the lifted job-list construction (contig enumerations with lengths at the thresholds of the code) where the structural reading cannot follow, and of Fragment.write_pysam on every slot occupancy',
+    'technique': 'static analysis: exactly-once consumption along CFG paths of the job-list loop, comparison-predicate enumeration of guards, constant/guard tracking of option wiring, finalisation-order path check; small-scope abstract execution of the lifted job-list construction (contig enumerations with lengths at the thresholds of the code) where the structural reading cannot follow, and of Fragment.write_pysam on every slot occupancy, of Fragment.write_tags on every outcome of its tests (RG), and of generate_tasks on a model plan against a modelled BAM',
     'design_ref': 'DESIGN.md section 5, C05',
 }
 
